@@ -174,7 +174,12 @@ static void run_pre(const Toks & t)
     for (int k = 0; k < CD; ++k) {p(k) = static_cast<S>(vh::rf(t.at(i++)));}
     pts.push_back(p);
   }
-  PointSetPreconditioner<PT> pc(pts);
+  // the preconditioner object is reused (the RANSAC model keeps one as a member and calls compute() repeatedly):
+  // a first compute() on a different, off-centre set must leave no trace in the result for the case's set
+  PointSet<PT> warm;
+  for (const auto & q : pts) {PT w = q; for (int k = 0; k < CD; ++k) {w(k) = q(k) * static_cast<S>(0.5) + static_cast<S>(3 + k);} warm.push_back(w);}
+  PointSetPreconditioner<PT> pc(warm);
+  pc.compute(pts);
   pv(pc.getPointSetMin()); pv(pc.getPointSetMax()); pv(pc.getPointSetMean());
   std::cout << vh::pf(static_cast<double>(pc.getScale())) << " ";
   pv(pc.getTranslation());
